@@ -121,32 +121,33 @@ type vsvStream struct {
 }
 
 type vsvScn struct {
-	tr       *vlib.Trace
-	name     string
-	no       int
-	gated    bool
-	closed   atomic.Bool
-	tdown    chan struct{}
-	events   chan *vsvArr
-	pending  []*vsvArr
-	mu       sync.Mutex
-	streams  map[int]*vsvStream
-	gids     map[uint64]int
-	sigs     map[uint64][]byte
-	store    CallbackStore
-	base     chain.Store
-	dir      string
-	wg       sync.WaitGroup
-	head     uint64
-	same     bool
-	diverged bool
-	wblocked bool
-	regOwner map[string]int // callback id -> stream, mirrors callbackStore.newJob (updated under its write lock)
-	expect   map[int]int    // beacons dispatched to the stream's callback
-	got      map[int]int    // live Sends completed by the stream
-	entered  map[int]int    // Sends entered by the stream
-	nondet   bool
-	chans    map[string]chan struct{}
+	tr             *vlib.Trace
+	name           string
+	no             int
+	gated          bool
+	closed         atomic.Bool
+	tdown          chan struct{}
+	events         chan *vsvArr
+	pending        []*vsvArr
+	mu             sync.Mutex
+	streams        map[int]*vsvStream
+	gids           map[uint64]int
+	sigs           map[uint64][]byte
+	store          CallbackStore
+	base           chain.Store
+	dir            string
+	wg             sync.WaitGroup
+	head           uint64
+	same           bool
+	diverged       bool
+	wblocked       bool
+	cancelAtStored map[uint64]context.CancelFunc // Puts whose context is cancelled at append.stored
+	regOwner       map[string]int                // callback id -> stream, mirrors callbackStore.newJob (updated under its write lock)
+	expect         map[int]int                   // beacons dispatched to the stream's callback
+	got            map[int]int                   // live Sends completed by the stream
+	entered        map[int]int                   // Sends entered by the stream
+	nondet         bool
+	chans          map[string]chan struct{}
 }
 
 var vsvCur atomic.Pointer[vsvScn]
@@ -218,6 +219,15 @@ func vsvAt(point string, args []any) {
 	case "append.stored":
 		r := args[0].(uint64)
 		sc.tr.Emit("Stored", vlib.E{"r": r, "dg": vsvDigest(sc.sig(r))})
+		sc.mu.Lock()
+		cancel := sc.cancelAtStored[r]
+		delete(sc.cancelAtStored, r)
+		sc.mu.Unlock()
+		if cancel != nil {
+			// the caller of Put goes away right after the write was committed
+			sc.tr.Emit("WCancel", vlib.E{"r": r, "at": "stored"})
+			cancel()
+		}
 	case "cb.beforeDispatch":
 		if sc.gated {
 			sc.park(&vsvArr{point: "beforeDispatch", r: args[0].(uint64)})
@@ -323,7 +333,7 @@ func vsvNewScn(tr *vlib.Trace, no int, sc vsvScript, gated bool, workdir string,
 	s := &vsvScn{tr: tr, name: sc.Name, no: no, gated: gated, tdown: make(chan struct{}),
 		events: make(chan *vsvArr, 8192), streams: map[int]*vsvStream{}, gids: map[uint64]int{},
 		sigs: map[uint64][]byte{}, same: sc.SameAddr, chans: map[string]chan struct{}{},
-		regOwner: map[string]int{}, expect: map[int]int{}, got: map[int]int{}, entered: map[int]int{}}
+		cancelAtStored: map[uint64]context.CancelFunc{}, regOwner: map[string]int{}, expect: map[int]int{}, got: map[int]int{}, entered: map[int]int{}}
 	ctx := context.Background()
 	var base chain.Store
 	var err error
@@ -473,23 +483,45 @@ func (s *vsvScn) open(n int, from uint64, l log.Logger) *vsvStream {
 }
 
 // put starts callbackStore.Put(round) in its own goroutine.
-func (s *vsvScn) put(r uint64) {
+// put starts callbackStore.Put(round) in its own goroutine.  mode "": live context; "stored": the
+// context is cancelled inside the append.stored hook (the write is committed, the dispatch has not
+// begun); "before": the context is already cancelled when Put is called.
+func (s *vsvScn) put(r uint64, mode string) {
 	b := &common.Beacon{Round: r, Signature: s.sig(r)}
+	ctx, cancel := context.WithCancel(context.Background())
 	s.tr.Emit("PutCall", vlib.E{"r": r, "dg": vsvDigest(s.sig(r))})
+	key := "put"
+	switch mode {
+	case "stored":
+		s.mu.Lock()
+		s.cancelAtStored[r] = cancel
+		s.mu.Unlock()
+	case "before":
+		s.tr.Emit("WCancel", vlib.E{"r": r, "at": "before"})
+		cancel()
+		key = "putx"
+	}
 	s.wg.Add(1)
 	go func() {
 		defer s.wg.Done()
-		err := s.store.Put(context.Background(), b)
+		defer cancel()
+		err := s.store.Put(ctx, b)
 		if s.closed.Load() {
 			return
 		}
 		res := "ok"
-		if err != nil {
+		if errors.Is(err, context.Canceled) {
+			res = "canceled"
+		} else if err != nil {
 			res = "err"
 		}
 		s.tr.Emit("PutDone", vlib.E{"r": r, "res": res})
-		close(s.chanFor("put", r))
-		s.post(&vsvArr{point: "putdone", r: r, err: err})
+		close(s.chanFor(key, r))
+		pt := "putdone"
+		if mode == "before" {
+			pt = "putaborted"
+		}
+		s.post(&vsvArr{point: pt, r: r, err: err})
 	}()
 }
 
@@ -844,9 +876,20 @@ steps:
 				break steps
 			}
 			a.rel <- nil
-		case "Store":
+		case "PutAborted":
+			s.put(st.X, "before")
+			if s.wait(vsvStepWait, isR("putaborted", st.X)) == nil {
+				vsvImpatient()
+				s.diverge(i, st, "putaborted")
+				break steps
+			}
+		case "Store", "StoreC":
 			wround[st.W] = st.X
-			s.put(st.X)
+			if st.A == "StoreC" {
+				s.put(st.X, "stored")
+			} else {
+				s.put(st.X, "")
+			}
 			if !s.peek(vsvStepWait, func(a *vsvArr) bool {
 				return (a.point == "beforeDispatch" || a.point == "putdone") && a.r == st.X
 			}) {
@@ -854,8 +897,13 @@ steps:
 				break steps
 			}
 		case "RLock":
-			a := s.wait(vsvStepWait, isR("beforeDispatch", st.X))
-			if a == nil {
+			a := s.wait(vsvStepWait, func(a *vsvArr) bool {
+				return (a.point == "beforeDispatch" || a.point == "putdone") && a.r == st.X
+			})
+			if a == nil || a.point == "putdone" {
+				if a != nil { // the Put returned without dispatching
+					s.pending = append(s.pending, a)
+				}
 				s.diverge(i, st, "beforeDispatch")
 				break steps
 			}
